@@ -133,19 +133,49 @@ def record_map_from_spec(spec):
     return cdata.RecordMap(blocks_in=rs(spec.get("blocks_in")), blocks_out=rs(spec.get("blocks_out")), strict=spec.get("strict", True))
 
 
+def to_term(e):
+    """AST -> expression object built through the Term API (no parser involved)"""
+    import data_algebra.expr_rep as er
+
+    t = e[0]
+    if t == "c":
+        return er.ColumnReference(e[1])
+    if t == "v":
+        return er.Value(e[1])
+    if t == "u":
+        a = to_term(e[2])
+        return -a if e[1] == "-" else (a == er.Value(False))
+    if t == "o":
+        a, b = to_term(e[2]), to_term(e[3])
+        import operator
+
+        fns = {"+": operator.add, "-": operator.sub, "*": operator.mul, "/": operator.truediv, "//": operator.floordiv, "%": operator.mod, "**": operator.pow,
+               "==": operator.eq, "!=": operator.ne, "<": operator.lt, "<=": operator.le, ">": operator.gt, ">=": operator.ge}
+        if e[1] in fns:
+            return fns[e[1]](a, b)
+        return er.kop_expr(e[1], [a, b], inline=True)
+    if t == "m":
+        a = to_term(e[2])
+        return getattr(a, e[1])(*[to_term(x) for x in e[3:]])
+    if t == "f":
+        return er.Expression(op=e[1], args=[])
+    raise ValueError(e)
+
+
 def apply_step(ops, step, prefixes=None, tables=None):
     """Apply one step record to a live pipeline through the public builder API."""
     op = step["op"]
+    rend = to_term if step.get("as_terms") else render
     if op == "extend":
         kw = {}
         for k in ("partition_by", "order_by", "reverse"):
             if step.get(k) is not None:
                 kw[k] = step[k]
-        return ops.extend({k: render(v) for k, v in step["ops"].items()}, **kw)
+        return ops.extend({k: rend(v) for k, v in step["ops"].items()}, **kw)
     if op == "project":
-        return ops.project({k: render(v) for k, v in step["ops"].items()}, group_by=step.get("group_by") or [])
+        return ops.project({k: rend(v) for k, v in step["ops"].items()}, group_by=step.get("group_by") or [])
     if op == "select_rows":
-        return ops.select_rows(render(step["expr"]))
+        return ops.select_rows(rend(step["expr"]))
     if op == "select_columns":
         return ops.select_columns(list(step["columns"]))
     if op == "drop_columns":
@@ -172,6 +202,8 @@ def apply_step(ops, step, prefixes=None, tables=None):
             kw = {}
             if step.get("check"):
                 kw["check_all_common_keys_in_equi_spec"] = True
+            if step.get("use_by"):
+                return ops.natural_join(bops, by=on, jointype=step["jointype"], **kw)
             return ops.natural_join(bops, on=on, jointype=step["jointype"], **kw)
         kw = {}
         if "id_column" in step:
